@@ -265,3 +265,26 @@ def check(facts, rep, tier, cfg):
         rep.bad("C16.R5", "unbounded-peer-wait-after-timeout", v["where"], v["msg"])
     if not hit:
         rep.ok("C16.R5", "no-unbounded-wait-after-timeout", "", "C08.R3 holds")
+    # ---- R6 a Pong that is already in the socket is seen before the timeout is evaluated
+    rep.rule("C16.R6", "in the connection task's biased select the receive loop (which records Pongs) is polled before the keepalive check, so an "
+                       "answer that arrived in time is never judged by the previous Pong's timestamp")
+    sub = type(rep)(rep.prop, rep.tier, rep.config)
+    try:
+        rules_c08.check(facts, sub, tier, cfg)
+    except Exception:
+        pass
+    roles = rules_c08.LAST_ROLES
+    order = sorted((int(k[1:]), v[0]) for k, v in roles.items() if k[1:].isdigit())
+    names = [r for _, r in order]
+    if "tokio-time" not in crate.features:
+        rep.info("tokio-time disabled: no keepalive arm")
+    elif "receive-loop" in names and "keepalive" in names:
+        if names.index("receive-loop") < names.index("keepalive"):
+            rep.ok("C16.R6", "receive-before-keepalive", "", "select arm order %s" % names)
+        else:
+            rep.bad("C16.R6", "receive-before-keepalive", "", "the keepalive arm is polled before the receive loop in the biased select (order %s): when a "
+                    "due tick and an unread Pong are ready in the same poll, the timeout is evaluated against the stale timestamp and a live "
+                    "peer is cut off" % names)
+    else:
+        rep.bad("C16.R6", "receive-before-keepalive", "", "could not identify the receive-loop and keepalive arms of the task's select (found %s)" % names)
+
